@@ -21,6 +21,16 @@ def forced_cases(ctx, shapes, n_soup):
                           "abs": {"x": FORCED},
                           "args": {"text": text, "config": cfg, "layout": "copy_all", "layout_channel": ch, "source": "SRC-1"}})
             k += 1
+    # documents whose sections have all lost their colon, parsed with the colon required: every section is rejected,
+    # the whole text must come back as one tract (a Twp/Rge and a section are there, so no error flag is demanded)
+    for j, a in enumerate(shapes):
+        if a["layout"] not in ("TRS_desc", "S_desc_TR"):
+            continue
+        doc = plssdoc.concretise(a, ctx.rng, vary_tr=True)
+        text = plssdoc.render_doc(doc, ctx.rng, colons=False)
+        args = {"text": text, "source": "SRC-1", "config": ctx.rng.choice(["sec_colon_required", "sec_colon_required,parse_qq"])}
+        cases.append({"id": "n%d" % j, "kind": "plss", "origin": "colon-less document, colon required",
+                      "abs": {"x": {"forced_copy_all": False, "must_fall_back": True, "both_found": True}}, "args": args})
     for i in range(n_soup):
         text = soup.rand_text(ctx.rng)
         r = ctx.rng.random()
